@@ -119,8 +119,20 @@ var frameCache struct {
 // private instance of the same value.
 func makeValue(op *engine.Op) (val any, bytes []byte, ad *adapters.Adapter, ok bool) {
 	if strings.HasPrefix(op.Struct, "construct:") {
-		v, b, ok := auth.ConstructWithBytes(op.Shape)
-		return v, b, nil, ok
+		// the instance that is handed out is never touched by the harness (no
+		// warming call that could fill a lazy cache before the tasks start);
+		// its serialisation comes from a second, discarded instance
+		v, ok := auth.Construct(op.Shape)
+		if !ok {
+			return nil, nil, nil, false
+		}
+		if frameCache.op != op {
+			frameCache.op, frameCache.ok, frameCache.bytes = op, false, nil
+			if _, b, ok2 := auth.ConstructWithBytes(op.Shape); ok2 {
+				frameCache.bytes, frameCache.ok = b, true
+			}
+		}
+		return v, frameCache.bytes, nil, true
 	}
 	ad = adapters.ByName(op.Struct)
 	if ad == nil || op.Shape == nil {
